@@ -2,6 +2,8 @@
 package c09
 
 import (
+	"bytes"
+	"encoding/binary"
 	"fmt"
 	"runtime/debug"
 	"syscall"
@@ -16,7 +18,7 @@ import (
 
 // Case is one kernel invocation.
 type Case struct {
-	Path    string `json:"path"` // ssse3 | asm | go | goT
+	Path    string `json:"path"` // ssse3 | asm | go | goT | le (byte-slice kernels of the other little-endian platforms)
 	Op      string `json:"op"`   // mul | muladd
 	C       uint16 `json:"c"`
 	N       int    `json:"n"`     // bytes, even
@@ -240,6 +242,10 @@ func check(c Case) string {
 		call = func() { gf2p16.VerifMulByteSliceLEGeneric(k, in, out) }
 	case "go/muladd":
 		call = func() { gf2p16.VerifMulAndAddByteSliceLEGeneric(k, in, out) }
+	case "le/mul":
+		call = func() { gf2p16.VerifMulByteSliceLEPlatformLE(k, in, out) }
+	case "le/muladd":
+		call = func() { gf2p16.VerifMulAndAddByteSliceLEPlatformLE(k, in, out) }
 	case "goT/mul":
 		call = func() { gf2p16.VerifMulSliceGeneric(k, castT(in), castT(out)) }
 	case "goT/muladd":
@@ -281,6 +287,40 @@ func check(c Case) string {
 	return ""
 }
 
+// callKernel invokes one kernel path on plain slices (no arena).
+func callKernel(path, op string, cc uint16, in, out []byte) {
+	k := gf2p16.T(cc)
+	old := gf2p16.VerifHasSSSE3()
+	defer gf2p16.VerifSetUseSSSE3(old)
+	switch path {
+	case "ssse3", "asm":
+		gf2p16.VerifSetUseSSSE3(path == "ssse3" && old)
+		if op == "mul" {
+			gf2p16.MulByteSliceLE(k, in, out)
+		} else {
+			gf2p16.MulAndAddByteSliceLE(k, in, out)
+		}
+	case "go":
+		if op == "mul" {
+			gf2p16.VerifMulByteSliceLEGeneric(k, in, out)
+		} else {
+			gf2p16.VerifMulAndAddByteSliceLEGeneric(k, in, out)
+		}
+	case "le":
+		if op == "mul" {
+			gf2p16.VerifMulByteSliceLEPlatformLE(k, in, out)
+		} else {
+			gf2p16.VerifMulAndAddByteSliceLEPlatformLE(k, in, out)
+		}
+	case "goT":
+		if op == "mul" {
+			gf2p16.VerifMulSliceGeneric(k, castT(in), castT(out))
+		} else {
+			gf2p16.VerifMulAndAddSliceGeneric(k, castT(in), castT(out))
+		}
+	}
+}
+
 func firstLine(s string) string {
 	for i := 0; i < len(s); i++ {
 		if s[i] == '\n' {
@@ -306,7 +346,7 @@ func knownKey(c Case) string {
 	return ""
 }
 
-var paths = []string{"ssse3", "asm", "go", "goT"}
+var paths = []string{"ssse3", "asm", "go", "goT", "le"}
 var ops = []string{"mul", "muladd"}
 
 func TestCheck(t *testing.T) {
@@ -429,6 +469,96 @@ func TestCheck(t *testing.T) {
 		}
 	}
 
+	// (2z) short windows of very large allocations (capacity above 2^30 bytes): only the length counts
+	if cfg.Shard == 2%cfg.NShards {
+		bigIn, bigOut := make([]byte, 1<<30+4096), make([]byte, 1<<30+8192)
+		for _, off := range []int{0, 2, 1 << 29} {
+			for pi, p := range paths {
+				for _, op := range ops {
+					rec.Eval()
+					rec.Class("window-of-an-allocation-above-2^30-bytes")
+					n := 64 + 2*pi
+					in, out := bigIn[off:off+n], bigOut[off+2:off+2+n]
+					for i := range in {
+						in[i] = byte(i*7 + 1)
+						out[i] = byte(i * 3)
+					}
+					want := make([]byte, n)
+					tab := table(0x1d2c)
+					for i := 0; i+1 < n; i += 2 {
+						v := tab[uint16(in[i])|uint16(in[i+1])<<8]
+						if op == "muladd" {
+							v ^= uint16(out[i]) | uint16(out[i+1])<<8
+						}
+						want[i], want[i+1] = byte(v), byte(v>>8)
+					}
+					msg := ""
+					if pan, pm := run.Safe(func() { callKernel(p, op, 0x1d2c, in, out) }); pan {
+						msg = "kernel panicked: " + firstLine(pm)
+					} else if !bytes.Equal(out, want) {
+						msg = "wrong product"
+					} else if bigOut[off+1] != 0 || bigOut[off+2+n] != 0 {
+						msg = "bytes outside the window were written"
+					}
+					if msg != "" {
+						rec.Fail("bigcap", Case{Path: p, Op: op, C: 0x1d2c, N: n, Fill: "bigcap"}, "", fmt.Sprintf("%s/%s on a %d-byte window at offset %d of an allocation of 2^30+ bytes: %s", p, op, n, off, msg))
+					}
+					for i := range out {
+						out[i] = 0
+					}
+				}
+			}
+		}
+	}
+	// (2y) thorough: buffers longer than 2^32 bytes (lengths and offsets that do not fit into 32 bits)
+	if cfg.Thorough() && cfg.Shard == 6%cfg.NShards {
+		n := 1<<32 + 96
+		in, out := make([]byte, n), make([]byte, n)
+		marks := []int{0, 62, 4094, 1 << 20, 1<<31 - 2, 1 << 31, 1<<32 - 34, 1<<32 - 2, 1 << 32, 1<<32 + 30, 1<<32 + 64, n - 2}
+		for _, m := range marks {
+			in[m], in[m+1] = byte(m>>7)|1, byte(m>>15)|0x80
+		}
+		for _, p := range []string{"ssse3", "asm", "go"} {
+			for _, op := range ops {
+				rec.Eval()
+				rec.Class("buffer-longer-than-2^32-bytes")
+				for i := 0; i < n; i += 8 {
+					binary.LittleEndian.PutUint64(out[i:], 0x5a5a5a5a5a5a5a5a)
+				}
+				pan, pm := run.Safe(func() { callKernel(p, op, 0x0b17, in, out) })
+				msg := ""
+				if pan {
+					msg = "kernel panicked: " + firstLine(pm)
+				} else {
+					tab := table(0x0b17)
+					base := uint64(0)
+					if op == "muladd" {
+						base = 0x5a5a5a5a5a5a5a5a
+					}
+					isMark := map[int]bool{}
+					for _, m := range marks {
+						isMark[m&^7] = true
+					}
+					for i := 0; i < n && msg == ""; i += 8 {
+						got := binary.LittleEndian.Uint64(out[i:])
+						if got == base && !isMark[i] {
+							continue
+						}
+						for k := i; k < i+8; k += 2 {
+							want := tab[uint16(in[k])|uint16(in[k+1])<<8] ^ uint16(base)
+							if g := uint16(out[k]) | uint16(out[k+1])<<8; g != want {
+								msg = fmt.Sprintf("word at byte offset %d: got %#04x want %#04x", k, g, want)
+								break
+							}
+						}
+					}
+				}
+				if msg != "" {
+					rec.Fail("huge", Case{Path: p, Op: op, C: 0x0b17, N: -1, Fill: "2^32+96 bytes"}, "", fmt.Sprintf("%s/%s on a buffer of 2^32+96 bytes: %s", p, op, msg))
+				}
+			}
+		}
+	}
 	// (3a) buffers that end exactly at the guard page while their capacity extends over it
 	for _, n := range []int{2, 6, 14, 30, 32, 34, 46, 48, 62, 64, 66, 94, 96, 98, 126, 130, 1022, 1024, 1026, 1040, 4098, 65536 + 18} {
 		for _, p := range paths {
